@@ -35,7 +35,8 @@ func ZZH_C17_stub_primitives() {
 	lg.SetState(target, []byte(key), []byte("record"), nil)
 	acc, root := lg.FlushDirtyData()
 	_ = lg.StateLedger.Commit(1, acc, root)
-	methods := []string{"Set", "Add", "Delete", "Get", "Has", "Query", "Caller", "EnableAudit", "GetTxIndex", "CurrentCaller"}
+	methods := []string{"Set", "Add", "Delete", "Get", "Has", "Query", "Caller", "EnableAudit", "GetTxIndex", "CurrentCaller",
+		"AddObject", "SetObject", "PostInterchainEvent", "CrossInvoke", "GetAccount", "Logger"}
 	method := methods[zz.Choice("primitive", len(methods))]
 	var args []*pb.Arg
 	switch method {
@@ -45,8 +46,12 @@ func ZZH_C17_stub_primitives() {
 			k = "role-0xOutsider"
 		}
 		args = []*pb.Arg{pb.String(k), pb.Bytes([]byte{zz.U8("v")})}
-	case "Delete", "Get", "Has", "Query":
+	case "Delete", "Get", "Has", "Query", "GetAccount", "PostInterchainEvent":
 		args = []*pb.Arg{pb.String(key)}
+	case "AddObject", "SetObject":
+		args = []*pb.Arg{pb.String("role-0xOutsider"), pb.String("object")}
+	case "CrossInvoke":
+		args = []*pb.Arg{pb.String(targets[1].String()), pb.String("GetAllRoles")}
 	}
 	ip := &pb.InvokePayload{Method: method, Args: args}
 	input, _ := ip.Marshal()
@@ -63,7 +68,6 @@ func ZZH_C17_stub_primitives() {
 		lg.RevertToSnapshot(snap) // what applyTransaction does with a failed call
 	}
 	ok, v := lg.GetState(target, []byte(key))
-	zz.Tag("C07.D6", method == "Add")
 	zz.Assert("C17.stub-primitive-leaves-state", ok && string(v) == "record")
 	ok2, _ := lg.GetState(target, []byte("role-0xOutsider"))
 	zz.Assert("C17.stub-primitive-leaves-state", !ok2)
